@@ -39,9 +39,9 @@ theorem nameFinish_safe (buf : Bytes) (ns : Nat) (acc : Bytes) (off rdl : Nat)
     omega
 
 /-- the measure that pays for the budget: room left in the name buffer + recursion depth left -/
-theorem nameLoop_safe (buf : Bytes) : ∀ (fuel off ns rdepth : Nat) (acc : Bytes) (rdl : Nat),
+theorem nameLoop_safe (fix : Bool) (buf : Bytes) : ∀ (fuel off ns rdepth : Nat) (acc : Bytes) (rdl : Nat),
     acc.length < ns → (ns - acc.length) + (maxRdepth + 2 - rdepth) ≤ fuel →
-    NameSafe buf ns acc.length rdl (nameLoop buf fuel off ns rdepth acc rdl) := by
+    NameSafe buf ns acc.length rdl (nameLoop fix buf fuel off ns rdepth acc rdl) := by
   intro fuel
   induction fuel with
   | zero => intro off ns rdepth acc rdl hlt hf; omega
@@ -67,14 +67,28 @@ theorem nameLoop_safe (buf : Bytes) : ∀ (fuel off ns rdepth : Nat) (acc : Byte
             · simp only [hp, ↓reduceIte]
               have hroom : ¬ (ns - acc.length = 0) := by omega
               simp only [hroom, ↓reduceIte]
-              have := ih (s &&& ptrMask) (ns - acc.length) (rdepth + 1) [] rdl (by simp; omega) (by simp; omega)
+              have := ih (s &&& ptrMask) (ns - acc.length) (rdepth + 1) [] (if fix then 0 else rdl) (by simp; omega) (by simp; omega)
               revert this
-              cases nameLoop buf fuel (s &&& ptrMask) (ns - acc.length) (rdepth + 1) [] rdl with
+              cases nameLoop fix buf fuel (s &&& ptrMask) (ns - acc.length) (rdepth + 1) [] (if fix then 0 else rdl) with
               | ok r =>
-                simp only [NameSafe, List.length_nil, List.length_append]
+                simp only [NameSafe, List.length_nil]
                 intro ⟨_, h2, h3, _, h5, h6, h7⟩
-                refine ⟨by omega, by omega, by omega, by omega, ?_, h6, by omega⟩
-                rw [List.getLast?_append, h5]; rfl
+                cases fix with
+                | false =>
+                  simp only [Bool.false_eq_true, ↓reduceIte, NameSafe, List.length_append] at h6 h7 ⊢
+                  refine ⟨by omega, by omega, by omega, by omega, ?_, h6, by omega⟩
+                  rw [List.getLast?_append, h5]; rfl
+                | true =>
+                  simp only [↓reduceIte] at h6 h7 ⊢
+                  by_cases hdrop : acc.length ≠ 0 ∧ r.rdl % 65536 = 0
+                  · rw [if_pos hdrop]
+                    simp only [NameSafe, List.length_append, List.length_dropLast, List.length_cons, List.length_nil]
+                    refine ⟨by omega, by omega, by omega, by omega, ?_, by omega, by omega⟩
+                    rw [List.getLast?_append, h5]; rfl
+                  · rw [if_neg hdrop]
+                    simp only [NameSafe, List.length_append]
+                    refine ⟨by omega, by omega, by omega, by omega, ?_, by omega, by omega⟩
+                    rw [List.getLast?_append, h5]; rfl
               | err => simp [NameSafe]
               | oob => simp [NameSafe]
               | abort => simp [NameSafe]
@@ -105,7 +119,7 @@ theorem nameLoop_safe (buf : Bytes) : ∀ (fuel off ns rdepth : Nat) (acc : Byte
                     (acc ++ List.take (buf[off]).toNat (List.drop (off + 1) buf) ++ [46]) (rdl + (buf[off]).toNat + 1)
                     hcont (by rw [hlen]; rw [hlen] at hcont; omega)
                   revert this
-                  cases nameLoop buf fuel (off + 1 + (buf[off]).toNat) ns rdepth
+                  cases nameLoop fix buf fuel (off + 1 + (buf[off]).toNat) ns rdepth
                       (acc ++ List.take (buf[off]).toNat (List.drop (off + 1) buf) ++ [46]) (rdl + (buf[off]).toNat + 1) with
                   | ok r =>
                     simp only [NameSafe]
@@ -133,12 +147,34 @@ theorem nameLoop_safe (buf : Bytes) : ∀ (fuel off ns rdepth : Nat) (acc : Byte
                   | abort => simp [NameSafe]
                   | fuel => simp [NameSafe]
 
-theorem nameUnpack_safe (buf : Bytes) (off ns : Nat) (hns : 0 < ns) :
-    NameSafe buf ns 0 0 (nameUnpack buf off ns) := by
-  unfold nameUnpack
+theorem nameUnpackV_safe (fix : Bool) (buf : Bytes) (off ns : Nat) (hns : 0 < ns) :
+    NameSafe buf ns 0 0 (nameUnpackV fix buf off ns) := by
+  unfold nameUnpackV
   have : ¬ ns = 0 := by omega
   simp only [this, ↓reduceIte]
-  exact nameLoop_safe buf (nameFuel ns) off ns 0 [] 0 (by simpa using hns) (by simp [nameFuel]; omega)
+  exact nameLoop_safe fix buf (nameFuel ns) off ns 0 [] 0 (by simpa using hns) (by simp [nameFuel]; omega)
+
+theorem nameUnpack_safe (buf : Bytes) (off ns : Nat) (hns : 0 < ns) :
+    NameSafe buf ns 0 0 (nameUnpack buf off ns) :=
+  nameUnpackV_safe _ buf off ns hns
+
+/-- a NUL-terminated buffer holds a C string shorter than itself -/
+theorem cstr_length_lt : ∀ (l : Bytes), l.getLast? = some 0 → (cstr l).length < l.length := by
+  intro l
+  induction l with
+  | nil => intro h; simp at h
+  | cons a t ih =>
+    intro h
+    unfold cstr at *
+    by_cases ha : a = 0
+    · simp [List.takeWhile_cons, ha]
+    · cases t with
+      | nil => simp at h; exact absurd h ha
+      | cons b t' =>
+        rw [List.getLast?_cons_cons] at h
+        have := ih h
+        simp only [List.takeWhile_cons, ne_eq, ha, not_false_eq_true, decide_true, ↓reduceIte, List.length_cons] at this ⊢
+        omega
 
 /-! ### the callers -/
 
@@ -147,8 +183,8 @@ theorem qFixedSz_eq : qFixedSz = 4 := by decide
 theorem rrFixedSz_eq : rrFixedSz = 10 := by decide
 theorem headerSz_eq : headerSz = 12 := by decide
 
-/-- a name buffer as the decoder leaves it: inside its `RFC1035_MAXHOSTNAMESZ` bytes and NUL-terminated -/
-def NameBufOk (b : Bytes) : Prop := b.length ≤ nameBufSz ∧ b.getLast? = some 0
+/-- a name as the decoder leaves it: the C string, with its NUL, lies inside the `RFC1035_MAXHOSTNAMESZ` bytes of its buffer -/
+def NameBufOk (b : Bytes) : Prop := b.length < nameBufSz
 
 def QSafe (buf : Bytes) : R (Query × Nat) → Prop
   | .ok (q, off) => off ≤ buf.length ∧ NameBufOk q.name
@@ -172,7 +208,8 @@ theorem queryUnpack_safe (buf : Bytes) (off : Nat) : QSafe buf (queryUnpack buf 
       obtain ⟨a, ha⟩ := rd16_some (buf := buf) (off := r.off) (by omega)
       obtain ⟨b, hb⟩ := rd16_some (buf := buf) (off := r.off + 2) (by omega)
       simp only [ha, hb, QSafe, NameBufOk]
-      exact ⟨by omega, h2, h5⟩
+      have := cstr_length_lt r.out h5
+      exact ⟨by omega, by omega⟩
   | err => simp [QSafe]
   | oob => simp [NameSafe]
   | abort => simp [NameSafe]
@@ -234,9 +271,11 @@ theorem rrUnpack_safe (buf : Bytes) (off : Nat) : RRSafe buf (rrUnpack buf off) 
               simp only [hb, ↓reduceIte]
               rw [if_pos hle]
               simp only [RRSafe, RRGood, NameBufOk]
-              refine ⟨hle, ⟨h2, h5⟩, Nat.mod_lt _ (by decide), ?_, ?_⟩
+              have c1 := cstr_length_lt r.out h5
+              have c2 := cstr_length_lt p.out g5
+              refine ⟨hle, by omega, Nat.mod_lt _ (by decide), ?_, ?_⟩
               · intro _
-                refine ⟨⟨g2, g5⟩, ?_⟩
+                refine ⟨by omega, ?_⟩
                 have : p.rdl % 65536 ≤ p.rdl := Nat.mod_le _ _
                 omega
               · intro h; exact absurd rfl h
@@ -248,7 +287,8 @@ theorem rrUnpack_safe (buf : Bytes) (off : Nat) : RRSafe buf (rrUnpack buf off) 
           simp only [hp, ↓reduceIte]
           rw [if_pos hle]
           simp only [RRSafe, RRGood, NameBufOk]
-          refine ⟨hle, ⟨h2, h5⟩, hrdl16, ?_, ?_⟩
+          have c1 := cstr_length_lt r.out h5
+          refine ⟨hle, by omega, hrdl16, ?_, ?_⟩
           · intro h; exact absurd h hp
           · intro _; simp [List.length_take, List.length_drop]; omega
   | err => simp [RRSafe]
